@@ -1,4 +1,6 @@
 import CifModel.Lemmas.ParseCBDupX
+import CifModel.Lemmas.ParseCBDupPlain
+import CifModel.Props.C15
 import CifModel.Lemmas.ParseCBFuel
 /-
   Property C15, duplicates under ARBITRARY handler programs (model `parseCBD`, Model/ParseCBDup.lean: the DUP_* diagnostics with an
@@ -54,6 +56,25 @@ theorem C15_dup_header_dropped_column (norm : Str → Str) (c : Content) (names 
   rw [hx] at e1 e2
   obtain ⟨rfl, rfl⟩ := e2 rfl
   exact e1
+
+/-- **Without duplicates the duplicate diagnostics never fire — whatever the program.**  For every well-formed document whose block
+    codes, frame codes (per block) and data names (per container) are pairwise distinct after normalisation, EVERY handler program and
+    both modes, the parser model with the duplicate diagnostics is the plain model: same callbacks, same result, same stored CIF.
+    (A check could only fire against content that is stored; whatever a program skips or stores, the content of a container is made
+    of names / codes of the document, which are distinct.)  So every document-level theorem about `parseCB` (Props/C15.lean,
+    C15Layout.lean, C15Events.lean) is a theorem about `parseCBD` on such documents. -/
+theorem C15_dup_is_plain_without_duplicates (p : Prog) (norm : Str → Str) (storing : Bool) (d : Doc) (hwn : wfDocN norm d = true) :
+    parseCBD p norm storing (tokensOf d) = parseCB p storing (tokensOf d) := by
+  have hw : wfDoc d = true := wfDocN_wf hwn
+  have hd : distinctDoc norm d = true := by simp only [wfDocN, Bool.and_eq_true] at hwn; exact hwn.2
+  rw [C15_dup_structural_any p norm storing d hw, C15_stored_is_structural_any p storing norm d hwn, xDocD_plain p norm storing d _ hw hd]
+
+/-- … for instance the stop semantics of the store, for the model with the diagnostics -/
+theorem C15_dup_stop_semantics_without_duplicates (p : Prog) (norm : Str → Str) (d : Doc) (hwn : wfDocN norm d = true) :
+    (parseCBD p norm true (tokensOf d)).2.2 = denote (cutDoc p true d).kept
+    ∧ (parseCBD p norm true (tokensOf d)).2.1 = cutResult p true (cutDoc p true d) := by
+  rw [C15_dup_is_plain_without_duplicates p norm true d hwn]
+  exact C15_stop_semantics_store p norm d hwn
 
 -- ---- non-vacuity / sanity -----------------------------------------------------------------------------------------------------
 
